@@ -155,4 +155,3 @@ func runClean(runOnly string, count int, opts ...CleanOpts) string {
 	flag.Set("test.count", strconv.Itoa(count))
 	return captureStdout(func() { Clean(nil, opts...) })
 }
-
